@@ -407,4 +407,351 @@ example : (match Changes.read "A: b\n".toList with | .ok _ => true | _ => false)
 example : (Changes.readRelaxed "A: b".toList).errors = []
     ∧ (Changes.readRelaxed "A: b".toList).para.text ≠ [] := by decide +kernel
 
+
+
+/-! `split_once('/')` -/
+theorem splitOnFirst_slash_eq : ∀ (s : Str) (r : Str × Str), splitOnFirst ['/'] s = some r →
+    s = r.1 ++ '/' :: r.2
+  | [], r, h => by simp [splitOnFirst] at h
+  | c :: cs, r, h => by
+    unfold splitOnFirst at h
+    by_cases hc : (['/'] : Str).isPrefixOf (c :: cs) = true
+    · simp only [hc, ↓reduceIte, Option.some.injEq] at h
+      have : c = '/' := by
+        have h' : '/' = c := by simpa [List.isPrefixOf] using hc
+        exact h'.symm
+      subst this; rw [← h]; simp
+    · simp only [hc, Bool.false_eq_true, ↓reduceIte] at h
+      cases hr : splitOnFirst ['/'] cs with
+      | none => simp [hr] at h
+      | some r' =>
+        simp only [hr, Option.some.injEq] at h
+        have ih := splitOnFirst_slash_eq cs r' hr
+        rw [← h]; simp only [List.cons_append]; rw [← ih]
+
+theorem splitOnFirst_slash_notin : ∀ (s : Str) (r : Str × Str), splitOnFirst ['/'] s = some r →
+    '/' ∉ r.1
+  | [], r, h => by simp [splitOnFirst] at h
+  | c :: cs, r, h => by
+    unfold splitOnFirst at h
+    by_cases hc : (['/'] : Str).isPrefixOf (c :: cs) = true
+    · simp only [hc, ↓reduceIte, Option.some.injEq] at h
+      rw [← h]; simp
+    · simp only [hc, Bool.false_eq_true, ↓reduceIte] at h
+      cases hr : splitOnFirst ['/'] cs with
+      | none => simp [hr] at h
+      | some r' =>
+        simp only [hr, Option.some.injEq] at h
+        have ih := splitOnFirst_slash_notin cs r' hr
+        have hne : c ≠ '/' := by
+          intro e; subst e; simp [List.isPrefixOf] at hc
+        rw [← h]; simp only [List.mem_cons, not_or]
+        exact ⟨fun e => hne e.symm, ih⟩
+
+/-! ## `Changes::files` and `Changes::get_pool_path` (changes.rs:157-184), panics included -/
+
+def filesKey : Str := "Files".toList
+
+/-- every line of a Files value is a well-formed entry `md5 size section priority name [...]` -/
+def FilesWF (v : Str) : Prop := ∀ l ∈ lines v, (ChangesFile.parse l).isSome = true
+
+instance (v : Str) : Decidable (FilesWF v) := by unfold FilesWF; infer_instance
+
+theorem filesWF_iff (v : Str) :
+    ((lines v).all fun l => (ChangesFile.parse l).isSome) = true ↔ FilesWF v := by
+  simp [FilesWF, List.all_eq_true]
+
+/-- **`files()`**: `None` iff there is no Files field; panics iff some line of the (first) Files
+    field is not a well-formed entry; otherwise the entries line by line -/
+theorem C15_files_iff (p : DNode) :
+    (files p = .ok none ↔ Deb.get p filesKey = none)
+    ∧ ((∃ site, files p = .panic site) ↔ ∃ v, Deb.get p filesKey = some v ∧ ¬ FilesWF v)
+    ∧ (∀ fs, files p = .ok (some fs) ↔
+        ∃ v, Deb.get p filesKey = some v ∧ FilesWF v ∧ (lines v).map ChangesFile.parse = fs.map some) := by
+  unfold files
+  rw [show "Files".toList = filesKey from rfl]
+  cases hg : Deb.get p filesKey with
+  | none => simp
+  | some v =>
+    simp only [reduceCtorEq, false_iff, Option.some.injEq, exists_eq_left', not_false_eq_true]
+    by_cases hw : FilesWF v
+    · have hall := (filesWF_iff v).2 hw
+      simp only [hall, ↓reduceIte, reduceCtorEq, exists_false, hw, not_true_eq_false,
+        Outcome.ok.injEq, Option.some.injEq, true_and, not_false_eq_true, iff_self, false_iff, true_and]
+      intro fs
+      have key : ∀ ls : List Str, (∀ l ∈ ls, (ChangesFile.parse l).isSome = true) →
+          (ls.filterMap ChangesFile.parse = fs ↔ ls.map ChangesFile.parse = fs.map some) := by
+        intro ls
+        induction ls generalizing fs with
+        | nil => intro _; cases fs <;> simp
+        | cons l ls ih =>
+          intro h
+          obtain ⟨f, hf⟩ := Option.isSome_iff_exists.1 (h l (by simp))
+          have ih' := fun fs' => ih fs' (fun x hx => h x (by simp [hx]))
+          cases fs with
+          | nil => simp [List.filterMap_cons, hf]
+          | cons g gs =>
+            simp only [List.filterMap_cons, hf, List.cons.injEq, List.map_cons, Option.some.injEq]
+            rw [ih' gs]
+      exact key _ hw
+    · have hall : ((lines v).all fun l => (ChangesFile.parse l).isSome) = false := by
+        cases h : (lines v).all fun l => (ChangesFile.parse l).isSome
+        · rfl
+        · exact absurd ((filesWF_iff v).1 h) hw
+      simp [hall, hw]
+
+/-- the sub-directory `get_pool_path` uses: "lib" for a name starting with "lib", otherwise the
+    lower-cased first character — `none` where `source[..1]` panics -/
+def subdir (src : Str) : Option Str :=
+  if libPrefix.isPrefixOf src then some libPrefix
+  else match src with
+    | [] => none
+    | c :: _ => if c.toNat < 128 then some [c.toLower] else none
+
+/-- `source[..1]` is out of range / not a character boundary: the name is empty or begins with a
+    character outside ASCII (a name starting with "lib" never gets there) -/
+theorem C15_pool_subdir_none_iff (src : Str) :
+    subdir src = none ↔ src = [] ∨ ∃ c r, src = c :: r ∧ 128 ≤ c.toNat := by
+  unfold subdir
+  by_cases hl : libPrefix.isPrefixOf src = true
+  · simp only [hl, ↓reduceIte, reduceCtorEq, false_iff, not_or, not_exists, not_and]
+    cases src with
+    | nil => simp [libPrefix] at hl
+    | cons c r =>
+      have hc : c = 'l' := by
+        rw [show libPrefix = 'l' :: ['i', 'b'] from rfl] at hl
+        simp only [List.isPrefixOf, Bool.and_eq_true, beq_iff_eq] at hl
+        exact hl.1.symm
+      refine ⟨by simp, ?_⟩
+      intro c' r' h
+      simp only [List.cons.injEq] at h
+      rw [← h.1, hc]; decide
+  · simp only [hl, Bool.false_eq_true, ↓reduceIte]
+    cases src with
+    | nil => simp
+    | cons c r =>
+      by_cases hc : c.toNat < 128
+      · simp only [hc, ↓reduceIte, reduceCtorEq, false_iff, not_or, not_exists, not_and]
+        refine ⟨by simp, ?_⟩
+        intro c' r' h
+        simp only [List.cons.injEq] at h
+        rw [← h.1]; omega
+      · simp only [hc, ↓reduceIte, true_iff]
+        exact .inr ⟨c, r, rfl, by omega⟩
+
+/-- closed form of `get_pool_path` once the Files field and its first entry are known -/
+theorem poolPath_of_first (p : DNode) (v l : Str) (ls : List Str) (f : ChangesFile)
+    (hg : Deb.get p filesKey = some v) (hw : FilesWF v) (hl : lines v = l :: ls)
+    (hf : ChangesFile.parse l = some f) :
+    (source p = none → poolPath p = .ok none)
+    ∧ (∀ src d, source p = some src → subdir src = some d →
+        poolPath p = .ok (some (poolFmt (poolSection f.section_) d src)))
+    ∧ (∀ src, source p = some src → subdir src = none → ∃ site, poolPath p = .panic site) := by
+  have hfiles : files p = .ok (some (f :: ls.filterMap ChangesFile.parse)) := by
+    unfold files
+    rw [show "Files".toList = filesKey from rfl, hg]
+    have hall := (filesWF_iff v).2 hw
+    rw [hl] at hall
+    simp only [hl, hall, ↓reduceIte, List.filterMap_cons, hf]
+  unfold poolPath
+  simp only [hfiles]
+  refine ⟨?_, ?_, ?_⟩
+  · intro hs; simp [hs]
+  · intro src d hs hd
+    simp only [hs]
+    unfold subdir at hd
+    by_cases hlib : libPrefix.isPrefixOf src = true
+    · simp only [hlib, ↓reduceIte, Option.some.injEq] at hd ⊢
+      rw [hd]
+    · simp only [hlib, Bool.false_eq_true, ↓reduceIte] at hd ⊢
+      cases src with
+      | nil => simp at hd
+      | cons c r =>
+        by_cases hc : c.toNat < 128
+        · simp only [hc, ↓reduceIte, Option.some.injEq] at hd ⊢
+          rw [hd]
+        · simp [hc] at hd
+  · intro src hs hd
+    simp only [hs]
+    unfold subdir at hd
+    by_cases hlib : libPrefix.isPrefixOf src = true
+    · simp [hlib] at hd
+    · simp only [hlib, Bool.false_eq_true, ↓reduceIte] at hd ⊢
+      cases src with
+      | nil => exact ⟨_, rfl⟩
+      | cons c r =>
+        by_cases hc : c.toNat < 128
+        · simp [hc] at hd
+        · simp only [hc, ↓reduceIte]; exact ⟨_, rfl⟩
+
+
+theorem poolPath_no_files (p : DNode) (hg : Deb.get p filesKey = none) : poolPath p = .ok none := by
+  have : files p = .ok none := (C15_files_iff p).1.2 hg
+  simp [poolPath, this]
+
+theorem poolPath_bad_files (p : DNode) (v : Str) (hg : Deb.get p filesKey = some v) (hw : ¬ FilesWF v) :
+    ∃ site, poolPath p = .panic site := by
+  obtain ⟨site, hs⟩ := (C15_files_iff p).2.1.2 ⟨v, hg, hw⟩
+  exact ⟨site, by simp [poolPath, hs]⟩
+
+theorem poolPath_empty_files (p : DNode) (v : Str) (hg : Deb.get p filesKey = some v) (hw : FilesWF v)
+    (hl : lines v = []) : ∃ site, poolPath p = .panic site := by
+  have : files p = .ok (some []) := ((C15_files_iff p).2.2 []).2 ⟨v, hg, hw, by simp [hl]⟩
+  refine ⟨"changes.rs:167 files.first().unwrap()", ?_⟩
+  simp only [poolPath, this]
+
+/-- **`get_pool_path`, exactly** (`C15_files_iff` says when the Files field is well formed):
+    * `Some(path)` iff the first Files field is well formed and has a first entry `f`, there is a
+      Source field `src` whose sub-directory exists, and then
+      `path = "pool/" ++ (section of f up to its first '/', or "main") ++ "/" ++ subdir ++ "/" ++ src`;
+    * `None` iff there is no Files field, or the Files field is well formed and non-empty and there
+      is no Source field (a missing Source is only noticed AFTER the Files field has been decoded);
+    * panic iff there is a Files field and: one of its lines is ill-formed, or it has no line at
+      all (`files.first().unwrap()`), or the Source value is empty or starts with a non-ASCII
+      character (`source[..1]`). -/
+theorem C15_pool_path_iff (p : DNode) :
+    (∀ r, poolPath p = .ok (some r) ↔
+      ∃ v l ls f src d, Deb.get p filesKey = some v ∧ FilesWF v ∧ lines v = l :: ls
+        ∧ ChangesFile.parse l = some f ∧ source p = some src ∧ subdir src = some d
+        ∧ r = poolFmt (poolSection f.section_) d src)
+    ∧ (poolPath p = .ok none ↔
+        Deb.get p filesKey = none
+        ∨ ∃ v, Deb.get p filesKey = some v ∧ FilesWF v ∧ lines v ≠ [] ∧ source p = none)
+    ∧ ((∃ site, poolPath p = .panic site) ↔
+        ∃ v, Deb.get p filesKey = some v ∧
+          (¬ FilesWF v ∨ lines v = [] ∨ ∃ src, source p = some src ∧ subdir src = none)) := by
+  cases hg : Deb.get p filesKey with
+  | none =>
+    rw [poolPath_no_files p hg]; simp
+  | some v =>
+    by_cases hw : FilesWF v
+    · cases hl : lines v with
+      | nil =>
+        obtain ⟨site, hs⟩ := poolPath_empty_files p v hg hw hl
+        rw [hs]; simp [hw, hl]
+      | cons l ls =>
+        obtain ⟨f, hf⟩ := Option.isSome_iff_exists.1 (hw l (by simp [hl]))
+        obtain ⟨h1, h2, h3⟩ := poolPath_of_first p v l ls f hg hw hl hf
+        cases hsrc : source p with
+        | none =>
+          rw [h1 hsrc]; simp [hw, hl]
+        | some src =>
+          cases hd : subdir src with
+          | none =>
+            obtain ⟨site, hs⟩ := h3 src hsrc hd
+            rw [hs]; simp [hw, hl, hd]
+          | some d =>
+            rw [h2 src d hsrc hd]
+            refine ⟨?_, ?_, ?_⟩
+            · intro r
+              constructor
+              · intro hr
+                simp only [Outcome.ok.injEq, Option.some.injEq] at hr
+                exact ⟨v, l, ls, f, src, d, rfl, hw, hl, hf, rfl, hd, hr.symm⟩
+              · rintro ⟨v', l', ls', f', src', d', hv, _, hl', hf', hs', hd', hr⟩
+                cases hv; rw [hl] at hl'; cases hl'; rw [hf] at hf'; cases hf'; cases hs'
+                rw [hd] at hd'; cases hd'
+                rw [hr]
+            · simp
+            · simp [hw, hl, hd]
+    · obtain ⟨site, hs⟩ := poolPath_bad_files p v hg hw
+      rw [hs]; simp [hw]
+
+/-- the value formula, read off the first Files line: whitespace-separated words
+    `md5 size section priority name`; the pool component is the section up to its first '/',
+    "main" for a section without '/' -/
+theorem C15_pool_path_value (p : DNode) (v l : Str) (ls : List Str) (f : ChangesFile) (src d : Str)
+    (hg : Deb.get p filesKey = some v) (hw : FilesWF v) (hl : lines v = l :: ls)
+    (hf : ChangesFile.parse l = some f) (hs : source p = some src) (hd : subdir src = some d) :
+    poolPath p = .ok (some ("pool/".toList ++ poolSection f.section_ ++ '/' :: d ++ '/' :: src))
+    ∧ (∃ m sz sec pr n rest, splitWhitespace l = m :: sz :: sec :: pr :: n :: rest ∧ f.section_ = sec)
+    ∧ (poolSection f.section_ = "main".toList ∨
+        ∃ a b, f.section_ = a ++ '/' :: b ∧ '/' ∉ a ∧ poolSection f.section_ = a) := by
+  refine ⟨(poolPath_of_first p v l ls f hg hw hl hf).2.1 src d hs hd, ?_, ?_⟩
+  · unfold ChangesFile.parse at hf
+    split at hf
+    · rename_i m sz sec pr n rest hsw
+      refine ⟨m, sz, sec, pr, n, rest, hsw, ?_⟩
+      split at hf
+      · cases hf
+      · split at hf
+        · cases hf
+        · cases hf; rfl
+    · cases hf
+  · unfold poolSection
+    cases hsp : splitOnFirst ['/'] f.section_ with
+    | none => exact .inl rfl
+    | some r =>
+      refine .inr ⟨r.1, r.2, ?_, ?_, rfl⟩
+      · exact splitOnFirst_slash_eq _ _ hsp
+      · exact splitOnFirst_slash_notin _ _ hsp
+
+
+/-- **observation — source packages whose name starts with "lib"**: the sub-directory is the
+    constant "lib": `pool/<section>/lib/<source>`. (The Debian archive files such packages under
+    their first FOUR characters: `pool/main/libf/libfoo`; this is what the code answers, recorded
+    here as a fact about it, not as a violation of C15.) -/
+theorem C15_pool_path_lib (p : DNode) (v l : Str) (ls : List Str) (f : ChangesFile) (src : Str)
+    (hg : Deb.get p filesKey = some v) (hw : FilesWF v) (hl : lines v = l :: ls)
+    (hf : ChangesFile.parse l = some f) (hs : source p = some src)
+    (hlib : libPrefix.isPrefixOf src = true) :
+    poolPath p = .ok (some ("pool/".toList ++ poolSection f.section_ ++ "/lib/".toList ++ src)) := by
+  have hd : subdir src = some libPrefix := by simp [subdir, hlib]
+  rw [(C15_pool_path_value p v l ls f src libPrefix hg hw hl hf hs hd).1]
+  simp [libPrefix]
+
+/-- a `.changes` paragraph for `libfoo` in section `non-free/libs` -/
+def exLib : Str :=
+  "Format: 1.8\nSource: libfoo\nFiles:\n d41d8cd98f00b204e9800998ecf8427e 0 non-free/libs optional libfoo_1.dsc\n".toList
+
+/-- closed witness of the observation: `pool/non-free/lib/libfoo` (archive layout: `…/libf/libfoo`) -/
+theorem C15_pool_path_lib_witness :
+    (match Changes.read exLib with
+     | .ok p => decide (poolPath p = .ok (some "pool/non-free/lib/libfoo".toList))
+     | .error _ => false) = true := by decide +kernel
+
+/-- closed instances of every case of `C15_pool_path_iff` -/
+def poolOf (s : String) : Option (Outcome (Option Str)) :=
+  match Changes.read s.toList with
+  | .ok p => some (poolPath p)
+  | .error _ => none
+
+def isPanic : Option (Outcome (Option Str)) → Bool
+  | some (.panic _) => true
+  | _ => false
+
+def md5 : String := "d41d8cd98f00b204e9800998ecf8427e"
+
+/-- ordinary name, section without '/': "main" and the lower-cased first letter -/
+theorem C15_pool_path_witness_value :
+    poolOf ("Source: Hello\nFiles:\n " ++ md5 ++ " 0 net optional h.dsc\n")
+      = some (.ok (some "pool/main/h/Hello".toList)) := by decide +kernel
+/-- no Files field: `None`, whatever the Source; Files well formed but no Source: `None` -/
+theorem C15_pool_path_witness_none :
+    poolOf "Source: hello\n" = some (.ok none)
+    ∧ poolOf ("Files:\n " ++ md5 ++ " 0 net optional h.dsc\n") = some (.ok none) := by decide +kernel
+/-- the three panic sites: an ill-formed Files line (size `x`); a Files field without a line — even
+    without a Source field, where one might expect `None`; an empty Source value; a Source starting
+    with a two-byte character -/
+theorem C15_pool_path_witness_panic :
+    isPanic (poolOf ("Source: hello\nFiles:\n " ++ md5 ++ " x net optional h.dsc\n")) = true
+    ∧ isPanic (poolOf "Source: hello\nFiles:\n") = true
+    ∧ isPanic (poolOf "Files:\n") = true
+    ∧ isPanic (poolOf ("Source:\nFiles:\n " ++ md5 ++ " 0 net optional h.dsc\n")) = true
+    ∧ isPanic (poolOf ("Source: éclair\nFiles:\n " ++ md5 ++ " 0 net optional h.dsc\n")) = true := by
+  decide +kernel
+
+/-- the hypotheses of `C15_pool_path_value` / `C15_pool_path_lib` hold for the paragraph of `exLib` -/
+example : (match Changes.read exLib with
+    | .ok p =>
+      (match Deb.get p filesKey with
+       | some v => decide (FilesWF v) && (lines v).length == 1
+          && ((lines v).head?.bind ChangesFile.parse).isSome
+       | none => false)
+      && (source p == some "libfoo".toList) && libPrefix.isPrefixOf "libfoo".toList
+    | .error _ => false) = true := by decide +kernel
+example : subdir "Zed".toList = some "z".toList ∧ subdir "1abc".toList = some "1".toList
+    ∧ subdir "lib".toList = some "lib".toList ∧ subdir "li".toList = some "l".toList
+    ∧ subdir [] = none ∧ subdir "éclair".toList = none := by decide +kernel
+
 end Deb822Verif.Props.C15Changes
